@@ -393,6 +393,22 @@ pub(crate) fn is_ended_is_stable_under_advance() {
     }
 }
 
+impl<State, Timeline, TimelineMap> MappedTimelineAnimator<State, Timeline, TimelineMap>
+where
+    State: Clone + PartialEq,
+    Timeline: crate::timeline::Timeline,
+    Timeline::Target: Clone,
+    TimelineMap: MapLike<State, MergedTimeline<Timeline>>,
+{
+    /// Read access for the macro-equivalence harnesses (verification only).
+    pub fn verif_timeline_of(&self, s: &State) -> Option<&MergedTimeline<Timeline>> {
+        self.timelines.get(s)
+    }
+    pub fn verif_time_and_pause(&self) -> (Duration, bool) {
+        (self.state_duration, self.paused_animation.is_some())
+    }
+}
+
 // -- StateAnimatorBuilder + the real EnumMap-backed map ------------------------------------------------
 
 #[derive(Clone, Copy, Debug, Default, PartialEq, Eq, State)]
